@@ -897,6 +897,15 @@ impl<'a, 'b> GeneratorState<'a> {
         };
 
         let expr = self.generate_expr(condition, pos, false, false)?;
+        // An element of an array of 16 bits values is true when any of its two bytes is not zero
+        if let ExprType::AbsoluteX(s) | ExprType::AbsoluteY(s) = &expr {
+            let v = self.compiler_state.get_variable(s);
+            if v.var_type == VariableType::ShortPtr || v.var_type == VariableType::CharPtrPtr {
+                let zero = ExprType::Immediate(0);
+                self.generate_condition_ex(&expr, &Operation::Neq, &zero, pos, negate, label)?;
+                return Ok(None);
+            }
+        }
         if flags_ok(&self.flags, &expr) {
             if let ExprType::A(_) = expr {
                 self.acc_in_use = false;
